@@ -4,6 +4,7 @@ import logging
 
 from harness.common import z, b, lst, tup, opt
 from harness.engine_env import Env, make_uod
+from openpectus.engine.models import SystemTagName
 
 UNIT = 0.5            # one model clock unit in seconds (exact in binary)
 T0 = 1000.0
@@ -46,14 +47,12 @@ class Run:
         uod = make_uod(self.cmd_log, outputs_safe=safe, outputs_plain=plain, with_acc=False, now_fn=lambda: self._now[0],
                        id_in_log=True)
         # registers are created safe-first by make_uod; the model indexes outputs in case order, so reorder the view
+        for n, v in zip(self.names, cfg["outs0"]):
+            uod.tags[n].set_value(float(v), T0)
+        # Engine.run -> _run applies the safe state and writes the process image itself (the model's boot)
         self.env = Env("", t0=T0, dt=UNIT, uod=uod)
         self.env.cmd_log = self.cmd_log
         e = self.env.engine
-        for n, v in zip(self.names, cfg["outs0"]):
-            e.uod.tags[n].set_value(float(v), T0)
-        # Engine._run applied the safe state before we set the initial values: apply it again as the engine did
-        e._apply_safe_state()
-        e.write_process_image()
         self.hw = e.uod.hwl
         self.hw.sink = self.cmd_log
         self.run_ids = []
@@ -69,6 +68,7 @@ class Run:
             return real
         Tracking.create_instance_id = create_instance_id
         self._Tracking = Tracking
+        self._install_event_hooks()
         self.log_pos = 0
         self.hw_pos = 0
 
@@ -89,8 +89,94 @@ class Run:
         self.tracked.append(bool(e.tracking.enabled))
         e.schedule_execution(node.instruction_name, node.arguments, iid)
 
+    def _install_event_hooks(self):
+        """run start / stop, Pause and Unpause are logged into the shared event list (wrappers, no source edit)"""
+        from openpectus.engine.engine import Engine
+        import openpectus.engine.internal_commands_impl as impl
+        run = self
+        eng = self.env.engine
+        # the command classes are hidden behind the @command_argument decorator's wrapper function
+        PauseCls = getattr(impl.PauseEngineCommand, "__wrapped__", impl.PauseEngineCommand)
+        UnpauseCls = getattr(impl.UnpauseEngineCommand, "__wrapped__", impl.UnpauseEngineCommand)
+        self._saved_hooks = [(Engine, "set_run_id", Engine.set_run_id), (Engine, "clear_run_id", Engine.clear_run_id),
+                             (Engine, "update_calculated_tags", Engine.update_calculated_tags),
+                             (Engine, "set_error_state", Engine.set_error_state),
+                             (PauseCls, "_run", PauseCls._run), (UnpauseCls, "_run", UnpauseCls._run)]
+        o_set, o_clear = Engine.set_run_id, Engine.clear_run_id
+        o_pause, o_unpause = PauseCls._run, UnpauseCls._run
+
+        def set_run_id(e):
+            if e is eng:
+                run.cmd_log.append(("runstart", None, None))
+            return o_set(e)
+
+        def clear_run_id(e):
+            if e is eng:
+                run.cmd_log.append(("runstop", None, None))
+            return o_clear(e)
+
+        def pause_run(cmd):
+            gen = o_pause(cmd)
+
+            def wrapped():
+                first = True
+                while True:
+                    if first and cmd.engine is eng:
+                        already = bool(eng._runstate_paused)
+                    try:
+                        next(gen)
+                    except StopIteration:
+                        if first and cmd.engine is eng:
+                            run.cmd_log.append(("pause", already, run._cap(eng._prev_state)))
+                        return
+                    if first and cmd.engine is eng:
+                        run.cmd_log.append(("pause", already, run._cap(eng._prev_state)))
+                    first = False
+                    yield
+            return wrapped()
+
+        def unpause_run(cmd):
+            if cmd.engine is eng:
+                run.cmd_log.append(("unpause", run._cap(eng._prev_state), None))
+            return o_unpause(cmd)
+        o_error = Engine.set_error_state
+
+        def set_error_state(e, exception):
+            if e is eng:
+                run.cmd_log.append(("error", None, None))
+            return o_error(e, exception)
+        Engine.set_error_state = set_error_state
+        o_update = Engine.update_calculated_tags
+
+        def update_calculated_tags(e, tick_time, increment_time):
+            if e is not eng:
+                return o_update(e, tick_time, increment_time)
+            sysv = str(e._system_tags[SystemTagName.SYSTEM_STATE].get_value())
+            before = run._clock_values()
+            try:
+                return o_update(e, tick_time, increment_time)
+            finally:
+                run.cmd_log.append(("clock", (sysv, increment_time), (before, run._clock_values())))
+        Engine.update_calculated_tags = update_calculated_tags
+        Engine.set_run_id = set_run_id
+        Engine.clear_run_id = clear_run_id
+        PauseCls._run = pause_run
+        UnpauseCls._run = unpause_run
+
+    def _clock_values(self):
+        st = self.env.engine._system_tags
+        return [st[SystemTagName.PROCESS_TIME].get_value(), st[SystemTagName.RUN_TIME].get_value(),
+                st[SystemTagName.BLOCK_TIME].value, st[SystemTagName.SCOPE_TIME].value]
+
+    def _cap(self, state):
+        if state is None:
+            return None
+        return [[self.names.index(tv.name), int(tv.value)] for tv in state]
+
     def close(self):
         self._Tracking.create_instance_id = self._orig_create
+        for obj, name, orig in self._saved_hooks:
+            setattr(obj, name, orig)
         self.env.close()
 
     # ------------------------------------------------------------------ operations
@@ -139,6 +225,7 @@ class Run:
                 accepted = False
         elif k == "setout":
             e.uod.tags[self.names[op[1]]].set_value(float(op[2]), e._tick_time)
+            self.cmd_log.append(("out_user", self.names[op[1]], float(op[2])))
         return self.view(accepted)
 
     def _run_index(self, rid):
@@ -171,6 +258,24 @@ class Run:
         pending = []
         for ent in self.cmd_log[self.log_pos:]:
             kind, name, iid = ent[0], ent[1], ent[2]
+            if kind in ("runstart", "runstop"):
+                events.append([kind])
+                continue
+            if kind == "pause":
+                events.append(["pause", name, iid])
+                continue
+            if kind == "unpause":
+                events.append(["unpause", name])
+                continue
+            if kind in ("out", "out_user"):
+                events.append(["out", kind == "out_user", self.names.index(name), ival(iid)])
+                continue
+            if kind == "error":
+                events.append(["error"])
+                continue
+            if kind == "clock":
+                events.append(["clock", name[0], units(name[1]), [units(x) for x in iid[0]], [units(x) for x in iid[1]]])
+                continue
             if kind == "hw":
                 if name in self.names:
                     pending.append((name, iid))
@@ -283,6 +388,20 @@ def view_to_coq(v):
             return f"EUExec {nat(e[1])} {nat(e[2])} {z(e[3])}"
         if e[0] == "final":
             return f"EUFinal {nat(e[1])} {nat(e[2])}"
+        if e[0] == "runstart":
+            return "EStarted 0%nat"
+        if e[0] == "runstop":
+            return "EStoppedRun"
+        if e[0] == "pause":
+            return f"EPause {b(e[1])} {lst([tup(nat(i), z(x)) for i, x in e[2]])}"
+        if e[0] == "out":
+            return f"EOut {b(e[1])} {nat(e[2])} {z(e[3])}"
+        if e[0] == "error":
+            return "EError"
+        if e[0] == "clock":
+            return f"EClock {e[1]} {z(e[2])} {lst([z(x) for x in e[3]])} {lst([z(x) for x in e[4]])}"
+        if e[0] == "unpause":
+            return "EUnpause " + ("None" if e[1] is None else "(Some %s)" % lst([tup(nat(i), z(x)) for i, x in e[1]]))
         return f"EHwWrite {lst([z(x) for x in e[1]])}"
     prev = "None" if v["prev"] is None else "(Some %s)" % lst([tup(nat(i), z(x)) for i, x in v["prev"]])
     return ("{| v_flags := %s; v_sys := %s; v_run := %s; v_prev := %s; v_outs := %s; v_hw := %s; v_clocks := %s; "
